@@ -24,7 +24,13 @@ RULE = ("closure/entails/is_equivalent: EVERY set of assertions over 3 variables
         "skeleton+v-structure computation.  joint tables (2-4 variables, cards 2-3, dyadic cells): product-form, "
         "conditionally independent by construction, XOR, context-specific, generic, with zeros, slightly perturbed; "
         "check_independence in all three event3 modes with 1-2 variables per event, get_independencies, "
-        "minimal_imap for EVERY order, is_imap on both classes.  non-trivial: the assertion set is non-empty / "
+        "minimal_imap for EVERY order, is_imap on both classes.  sessions: ONE Independencies object (plus one `other`) "
+        "through 4-8 steps of closure / entails / is_equivalent / contains / add_assertions (objects, lists, tuples) / "
+        "get_assertions / reduce / mutation of the object returned by closure(), each session containing query -> add "
+        "-> query, compared with the as-coded model on the CURRENT assertion list after every step; ONE joint table "
+        "through interleaved check_independence (3 modes) / get_independencies(condition) / marginal_distribution / "
+        "conditional_distribution(inplace=False) / copy, every answer against the ORIGINAL table and the table checked "
+        "unchanged after every step.  non-trivial: the assertion set is non-empty / "
         "the graphs have an edge / the table is not uniform; distinct = canonical input")
 TRUSTED_BASE = ["DiscreteFactor marginalize/product/reduce/normalize and numpy.allclose (the model takes marginals as "
                 "sums of cells; factor algebra is property C01's subject)",
@@ -124,6 +130,15 @@ def cases(tier, seed):
     # ---- (c) joint tables
     for i in range(200 if tier == "quick" else 2600):
         out.append({"kind": "jpd", "shape": rng.choice(SHAPES), "qseed": rng.randint(0, 10**9)})
+    # ---- (d) sessions: ONE object, interleaved queries and mutations, compared after every step
+    for i in range(260 if tier == "quick" else 2600):
+        out.append({"kind": "ses", "n": rng.choice((3, 3, 4, 4, 4, 5)), "steps": rng.randint(2, 6),
+                    "qseed": rng.randint(0, 10**9)})
+    for i in range(90 if tier == "quick" else 900):
+        out.append({"kind": "jses", "shape": rng.choice(SHAPES), "steps": rng.randint(2, 6),
+                    "qseed": rng.randint(0, 10**9)})
+    # sessions first: they must not be the ones dropped if the budget runs out on a loaded machine
+    out.sort(key=lambda c: 0 if c["kind"] in ("ses", "jses") else 1)
     return out
 
 
@@ -708,6 +723,277 @@ def check_is_imap(drv, jpd, J, names, cards, cells, asg, edges, key):
     return None
 
 
+# ------------------------------------------------------------------ (d) sessions on one object
+def run_ses(case, drv):
+    """one Independencies object (and one `other` object) through a random sequence of queries and
+    add_assertions; after EVERY step the answer must be the as-coded model's answer on the CURRENT assertion
+    list.  Deviations explained by the contraction side condition are remembered and reported (as the known
+    finding) only if nothing else disagrees."""
+    from pgmpy.independencies import Independencies, IndependenceAssertion
+    rng = random.Random(case["qseed"])
+    n = case["n"]
+    names = rng.sample(NAMEPOOL, n)
+    idx = {nm: i for i, nm in enumerate(names)}
+    key = common.canon_key(["ses", n, case["steps"], case["qseed"]])
+
+    def mk(a):
+        return IndependenceAssertion(*[[names[i] for i in e] for e in a])
+
+    def canon_impl(lst):
+        return sorted((sorted(map(sorted, k[0])), sorted(k[1])) for k in
+                      (canon_a([idx[v] for v in a.event1], [idx[v] for v in a.event2], [idx[v] for v in a.event3])
+                       for a in lst))
+
+    def canon_m(lst):
+        return sorted((sorted(map(sorted, k[0])), sorted(k[1])) for k in (canon_a(*t) for t in lst))
+
+    def cset(lst):
+        return {canon_a(*t) for t in lst}
+
+    cur = [rand_assertion(rng, n) for _ in range(rng.randint(0, 3))]
+    oth = [rand_assertion(rng, n) for _ in range(rng.randint(1, 2))]
+    obj = Independencies(*[mk(a) for a in cur])
+    other = Independencies(*[mk(a) for a in oth])
+    trace = []
+    finding = [None]
+    tags = ["session n=%d steps=%d" % (n, case["steps"])]
+
+    def where(**kw):
+        d = {"n": n, "trace": trace, "current": cur, "other": oth}
+        d.update(kw)
+        return d
+
+    def q_closure(o, lst, who):
+        c = o.closure()
+        coded, fixed = drv.call("c18_closure", [lst])
+        if canon_impl(c.get_assertions()) != canon_m(coded) and cset(coded) != \
+                {canon_a([idx[v] for v in a.event1], [idx[v] for v in a.event2], [idx[v] for v in a.event3])
+                 for a in c.get_assertions()}:
+            return None, bad("impl!=model:session-closure", where(who=who, impl=canon_impl(c.get_assertions()),
+                                                                  model=canon_m(coded)), key=key)
+        if len(c.get_assertions()) != len(coded):
+            return None, bad("impl!=model:session-closure-duplicates", where(who=who), key=key)
+        if cset(coded) != cset(fixed):
+            finding[0] = finding[0] or "closure"
+        return (c, coded, fixed), None
+
+    def q_entails(o, lst, o2, lst2, who):
+        e, ef, q, qf = drv.call("c18_entails", [lst, lst2])
+        ie = o.entails(o2)
+        if ie is not bool(e):
+            return bad("impl!=model:session-entails", where(who=who, impl=ie, model=bool(e)), key=key)
+        iq = o.is_equivalent(o2)
+        if iq is not bool(q):
+            return bad("impl!=model:session-is_equivalent", where(who=who, impl=iq, model=bool(q)), key=key)
+        if e != ef or q != qf:
+            finding[0] = finding[0] or "entails"
+        return None
+
+    def pool_for(lst):
+        coded, fixed = drv.call("c18_closure", [lst])
+        return [t for t in (coded + fixed)]
+
+    ops = ["closure", "entails", "equiv-same", "contains", "add", "add-other", "get", "reduce", "alias"]
+    # every session has at least one  query -> add -> query  sequence
+    plan = [rng.choice(ops) for _ in range(case["steps"])]
+    plan = [rng.choice(["closure", "entails", "equiv-same"])] + ["add"] + plan
+    for op in plan:
+        trace.append(op)
+        if op == "closure":
+            _, b = q_closure(obj, cur, "self")
+            if b:
+                return b
+        elif op == "entails":
+            # other := consequences of the current set (so entailment should mostly hold) or random ones
+            pool = pool_for(cur)
+            B = [rng.choice(pool) if pool and rng.random() < 0.8 else rand_assertion(rng, n)
+                 for _ in range(rng.randint(1, 3))]
+            ob = Independencies(*[mk(b) for b in B])
+            trace[-1] = ["entails", B]
+            b = q_entails(obj, cur, ob, B, "self-vs-fresh") or q_entails(obj, cur, other, oth, "self-vs-other") \
+                or q_entails(other, oth, obj, cur, "other-vs-self")
+            if b:
+                return b
+        elif op == "equiv-same":
+            twin = Independencies(*[mk(a) for a in reversed(cur)])
+            b = q_entails(obj, cur, twin, list(reversed(cur)), "self-vs-twin") or \
+                q_entails(twin, list(reversed(cur)), obj, cur, "twin-vs-self")
+            if b:
+                return b
+            if obj.is_equivalent(twin) is not True and finding[0] is None:
+                return bad("impl!=spec:session-not-equivalent-to-itself", where(), key=key)
+            if (obj == twin) is not True or (obj != twin) is not False:
+                return bad("impl!=model:session-eq", where(), key=key)
+        elif op == "contains":
+            a = rng.choice(cur) if cur and rng.random() < 0.6 else rand_assertion(rng, n)
+            trace[-1] = ["contains", a]
+            m = drv.call("c18_aeq", [a, a, cur])[2]
+            if (mk(a) in obj) is not bool(m) or obj.contains(mk([a[1], a[0], a[2]])) is not bool(m):
+                return bad("impl!=model:session-contains", where(a=a, model=bool(m)), key=key)
+        elif op in ("add", "add-other"):
+            new = [rand_assertion(rng, n) for _ in range(rng.randint(1, 2))]
+            trace[-1] = [op, new]
+            tgt, lst = (obj, cur) if op == "add" else (other, oth)
+            form = rng.choice(["objects", "lists", "tuples"])
+            if form == "objects":
+                tgt.add_assertions(*[mk(a) for a in new])
+            elif form == "lists":
+                tgt.add_assertions(*[[[names[i] for i in e] for e in a] for a in new])
+            else:
+                tgt.add_assertions(*[tuple(tuple(names[i] for i in e) for e in a) if a[2] else
+                                     (tuple(names[i] for i in a[0]), tuple(names[i] for i in a[1])) for a in new])
+            lst.extend(new)
+        elif op == "get":
+            if canon_impl(obj.get_assertions()) != canon_m(cur) or canon_impl(other.get_assertions()) != canon_m(oth):
+                return bad("impl!=model:session-get_assertions", where(impl=canon_impl(obj.get_assertions())), key=key)
+            if cur and obj.get_all_variables() != frozenset(names[i] for a in cur for e in a for i in e):
+                return bad("impl!=model:session-get_all_variables", where(), key=key)
+        elif op == "reduce":
+            if obj.reduce() is not None:
+                return bad("impl!=model:session-reduce-returns", where(), key=key)
+        elif op == "alias":
+            # the object handed out by closure() (and its list) belongs to the caller: mutating it must not change
+            # later answers of the object it came from
+            r, b = q_closure(obj, cur, "self")
+            if b:
+                return b
+            c = r[0]
+            junk = rand_assertion(rng, n)
+            c.add_assertions(mk(junk))
+            c.get_assertions().append(mk(rand_assertion(rng, n)))
+            if rng.random() < 0.5:
+                del c.get_assertions()[: len(c.get_assertions()) // 2]
+        # after EVERY step: the object's own list, its closure and an entailment query, against the model on `cur`
+        if canon_impl(obj.get_assertions()) != canon_m(cur):
+            return bad("impl!=model:session-state", where(impl=canon_impl(obj.get_assertions())), key=key)
+        r, b = q_closure(obj, cur, "after-" + (op if isinstance(op, str) else op[0]))
+        if b:
+            return b
+        probe = [rng.choice(r[1])] if r[1] else [rand_assertion(rng, n)]
+        b = q_entails(obj, cur, Independencies(*[mk(t) for t in probe]), probe, "after-step-probe")
+        if b:
+            return b
+        if cur:
+            last = [cur[-1]]
+            if obj.entails(Independencies(mk(cur[-1]))) is not True:
+                return bad("impl!=spec:session-does-not-entail-own-member", where(member=cur[-1]), key=key)
+        tags.append("session op=%s" % (op if isinstance(op, str) else op[0]))
+    if finding[0]:
+        return bad("impl!=spec:closure", {"session": trace, "final": cur, "class": "session-" + finding[0]},
+                   finding=F_CLOSURE, key=key, nontrivial=True, tags=tags + ["finding:session"])
+    return ok(nontrivial=True, key=key, tags=tags)
+
+
+def run_jses(case, drv):
+    """one JointProbabilityDistribution object through interleaved queries; non-inplace operations must leave it
+    unchanged and every answer must be the model's answer on the ORIGINAL table"""
+    import numpy as np
+    from pgmpy.factors.discrete import JointProbabilityDistribution as JPD
+    rng = random.Random(case["qseed"])
+    cards, cells = make_table(rng, case["shape"])
+    nv = len(cards)
+    names = rng.sample(["a", "b", "c", "d", "x1", "x2", "Z", "long name"], nv)
+    asg = list(itertools.product(*map(range, cards)))
+    vals = np.array([float(cells[a]) for a in asg])
+    jpd = JPD(names, cards, vals)
+    V = list(range(nv))
+    J = [V, cards, [[list(a), cells[a]] for a in asg]]
+    key = common.canon_key(["jses", cards, [str(cells[a]) for a in asg], case["qseed"], case["steps"]])
+    trace = []
+    tags = ["jpd-session vars=%d steps=%d" % (nv, case["steps"])]
+    cs = [str(cells[a]) for a in asg]
+
+    def unchanged():
+        return (list(jpd.variables) == names and list(jpd.cardinality) == cards
+                and jpd.values.shape == tuple(cards) and np.array_equal(jpd.values.ravel(), vals))
+
+    def factor_cells(f):
+        """{assignment over f's variables (by variable index, sorted) -> float}"""
+        vs = [names.index(v) for v in f.variables]
+        out = {}
+        for a in itertools.product(*[range(cards[v]) for v in vs]):
+            out[tuple(sorted(zip(vs, a)))] = float(f.values[a])
+        return out
+
+    ops = ["check-marg", "check-rv", "check-ctx", "getind", "marginal", "conditional", "copy"]
+    plan = [rng.choice(["conditional", "check-ctx", "getind", "marginal"])] + [rng.choice(ops) for _ in range(case["steps"])]
+    for op in plan:
+        perm = V[:]
+        rng.shuffle(perm)
+        e1, e2, rest = perm[:1], perm[1:2], perm[2:]
+        zs = rest[:rng.randint(0, len(rest))]
+        ctx = [[v, rng.randrange(cards[v])] for v in zs]
+        trace.append([op, e1, e2, ctx])
+        w = {"cards": cards, "cells": cs, "trace": trace}
+        if op.startswith("check"):
+            m_ex, m_tol, c_ex, c_tol, x_ex, x_tol = drv.call("c18_checkind", [J[0], J[1], J[2], e1, e2, zs, ctx, ATOL, RTOL])
+            n1, n2 = [names[v] for v in e1], [names[v] for v in e2]
+            if op == "check-marg":
+                got, exp = jpd.check_independence(n1, n2), bool(m_tol)
+            elif op == "check-rv":
+                got, exp = jpd.check_independence(n1, n2, [names[v] for v in zs], condition_random_variable=True), bool(c_tol)
+            else:
+                try:
+                    got = jpd.check_independence(n1, n2, [(names[v], s) for v, s in ctx])
+                except ValueError:
+                    got = None
+                exp = None if x_tol == [] else bool(x_tol[0])
+            if got is not exp:
+                return bad("impl!=model:session-check_independence", dict(w, impl=got, model=exp), key=key)
+        elif op == "getind":
+            cz = [[v, s] for v, s in ctx][: max(0, nv - 2)]
+            trace[-1] = [op, cz]
+            g_ex, g_tol = drv.call("c18_getind", [J[0], J[1], J[2], cz, ATOL, RTOL])
+            try:
+                ind = jpd.get_independencies([(names[v], s) for v, s in cz] or None)
+                got = {frozenset((names.index(next(iter(a.event1))), names.index(next(iter(a.event2)))))
+                       for a in ind.get_assertions()}
+            except ValueError:
+                got = None
+            exp = None if g_tol == [] else {frozenset(p) for p in g_tol[0]}
+            if got != exp:
+                return bad("impl!=model:session-get_independencies",
+                           dict(w, impl=None if got is None else sorted(map(sorted, got)), model=g_tol), key=key)
+        elif op == "marginal":
+            keep = sorted(rng.sample(V, rng.randint(1, nv)))
+            trace[-1] = [op, keep]
+            arg = [names[v] for v in keep]
+            m = jpd.marginal_distribution(arg if len(arg) > 1 or rng.random() < 0.5 else arg[0], inplace=False)
+            got = factor_cells(m)
+            for a in itertools.product(*[range(cards[v]) for v in keep]):
+                e = py_marg(cards, cells, keep, a)
+                if not common.approx(got.get(tuple(zip(keep, a)), float("nan")), e):
+                    return bad("impl!=model:session-marginal_distribution", dict(w, keep=keep, at=list(a), model=str(e)), key=key)
+        elif op == "conditional":
+            cz = ctx[: max(0, nv - 1)] or [[perm[-1], rng.randrange(cards[perm[-1]])]]
+            trace[-1] = [op, cz]
+            pz = py_marg(cards, cells, [v for v, _ in cz], [s_ for _, s_ in cz])
+            try:
+                c = jpd.conditional_distribution([(names[v], s_) for v, s_ in cz], inplace=False)
+            except ValueError:
+                c = None
+            if (c is None) != (pz == 0):
+                # pgmpy normalises 0/0 to nan without raising here; accept either nan table or the exception
+                if not (pz == 0 and c is not None and np.isnan(c.values).all()):
+                    return bad("impl!=model:session-conditional_distribution-zero", dict(w, ctx=cz, pz=str(pz)), key=key)
+            if c is not None and pz != 0:
+                keep = [v for v in V if v not in [u for u, _ in cz]]
+                got = factor_cells(c)
+                for a in itertools.product(*[range(cards[v]) for v in keep]):
+                    e = py_marg(cards, cells, keep + [v for v, _ in cz], list(a) + [s_ for _, s_ in cz]) / pz
+                    if not common.approx(got.get(tuple(sorted(zip(keep, a))), float("nan")), e):
+                        return bad("impl!=model:session-conditional_distribution", dict(w, ctx=cz, at=list(a), model=str(e)), key=key)
+        elif op == "copy":
+            c = jpd.copy()
+            c.values[...] = 0.0
+            c.marginal_distribution([names[0]])
+        if not unchanged():
+            return bad("impl!=spec:session-query-mutated-the-table", dict(w, variables=list(map(str, jpd.variables)),
+                                                                         values=[float(x) for x in jpd.values.ravel()]), key=key)
+        tags.append("jpd-session op=%s" % op)
+    return ok(nontrivial=len(set(cells.values())) > 1, key=key, tags=tags)
+
+
 def run_case(case, drv):
     k = case["kind"]
     if k == "clo":
@@ -720,4 +1006,8 @@ def run_case(case, drv):
         return run_ieqr(case, drv)
     if k == "jpd":
         return run_jpd(case, drv)
+    if k == "ses":
+        return run_ses(case, drv)
+    if k == "jses":
+        return run_jses(case, drv)
     return bad("harness:unknown-case-kind", {"kind": k})
